@@ -112,6 +112,7 @@ Definition run (req : sexp) : sexp :=
       if cmd <? 100 then or_bad (run_asn1 cmd args)
       else if cmd <? 200 then or_bad (run_msg cmd args)
       else if cmd <? 300 then or_bad (run_text cmd args)
+      else if cmd <? 400 then or_bad (run_schema cmd args)
       else bad
   | _ => bad
   end.
